@@ -601,6 +601,26 @@ func accCorpus(w *gal.Writer) {
 		a("group without members is read back without members (fix 4aa2cd2)", append(withPasswd(stdPasswd), setupOp{Op: "write", Path: "etc/group", Arg: "nobody:x:65534:\nwheel:x:10:root\nodd:x:11:,\n", Perm: 0o644}),
 			nil, []cgroup{{Name: "nomembers", GID: 77}, {Name: "one", GID: 78, Members: []string{"root"}}}, "")
 		a("nothing configured", withPasswd(stdPasswd), nil, nil, "root")
+		// pre-existing passwd AND group text in every line-ending shape: all old entries survive, in order (class of seeded C13-9)
+		lineShapes := []struct{ note, pw, gr string }{
+			{"last line unterminated", "root:x:0:0:root:/root:/bin/ash\nbin:x:1:1:bin:/bin:/sbin/nologin", "root:x:0:root\nbin:x:1:root,bin,daemon\nwheel:x:10:root"},
+			{"exactly one unterminated line", "root:x:0:0:root:/root:/bin/ash", "wheel:x:10:root,app"},
+			{"one unterminated line without members / shell", "daemon:x:2:2::/dev/null:", "nogroup:x:65533:"},
+			{"empty file", "", ""},
+			{"CRLF, last line unterminated", "root:x:0:0:root:/root:/bin/ash\r\nbin:x:1:1:bin:/bin:/sbin/nologin\r\nsvc:x:101:102::/var/lib/svc:/sbin/nologin", "root:x:0:root\r\nbin:x:1:root,bin\r\nwheel:x:10:root"},
+			{"CRLF, terminated", "root:x:0:0:root:/root:/bin/ash\r\nbin:x:1:1:bin:/bin:/sbin/nologin\r\n", "root:x:0:root\r\nwheel:x:10:root\r\n"},
+			{"trailing and leading blanks, last line unterminated with a blank", " root:x:0:0:root:/root:/bin/ash \n\tbin:x:1:1:bin:/bin:/sbin/nologin\t\nsvc:x:101:102::/var/lib/svc:/sbin/nologin ", " root:x:0:root \n\tbin:x:1:root,bin\t\nwheel:x:10:root "},
+			{"last line is a lone CR-terminated line", "root:x:0:0:root:/root:/bin/ash\nbin:x:1:1:bin:/bin:/sbin/nologin\r", "root:x:0:root\nwheel:x:10:root\r"},
+			{"blank line in the middle (refused)", "root:x:0:0:root:/root:/bin/ash\n\nbin:x:1:1:bin:/bin:/sbin/nologin", "root:x:0:root\n\nwheel:x:10:root"},
+			{"blank line at the end (refused)", "root:x:0:0:root:/root:/bin/ash\n\n", "root:x:0:root\n\n"},
+			{"only a newline (refused)", "\n", "\n"},
+			{"unterminated last line that is malformed (refused)", "root:x:0:0:root:/root:/bin/ash\nbin:x:1", "root:x:0:root\nwheel:x"},
+		}
+		for _, ls := range lineShapes {
+			setup := append(append([]setupOp{}, baseEtc...), setupOp{Op: "write", Path: "etc/passwd", Arg: ls.pw, Perm: 0o644}, setupOp{Op: "write", Path: "etc/group", Arg: ls.gr, Perm: 0o644})
+			a("line endings: "+ls.note, setup, []cuser{{Name: "app", UID: 1000}}, []cgroup{{Name: "app", GID: 1000, Members: []string{"app"}}}, "bin")
+			a("line endings, groups only: "+ls.note, setup, nil, []cgroup{{Name: "g", GID: 5}}, "")
+		}
 		// configured groups colliding with a package-provided entry, every kind (seeded C13-6 is the last one)
 		withGroup := append(withPasswd(stdPasswd), setupOp{Op: "write", Path: "etc/group", Arg: stdGroup, Perm: 0o644})
 		a("group collision: same name, other gid", withGroup, nil, []cgroup{{Name: "bin", GID: 7, Members: []string{"app"}}}, "")
@@ -643,14 +663,17 @@ func randSetup(r *gal.Rand) []setupOp {
 		if r.Chance(1, 12) {
 			txt += gal.Pick(r, []string{"\n", "x:y\n", "a:b:c:d:e:f:g\n", " \n", "t:x:1:1::/dev/null:/bin/sh", "t:x: 1:1::/dev/null:\n"})
 		}
-		s = append(s, setupOp{Op: "write", Path: "etc/passwd", Arg: txt, Perm: gal.Pick(r, []uint32{0o644, 0o600})})
+		s = append(s, setupOp{Op: "write", Path: "etc/passwd", Arg: reshapeLines(r, txt), Perm: gal.Pick(r, []uint32{0o644, 0o600})})
 	}
 	if r.Chance(1, 2) {
 		txt := stdGroup
+		if r.Chance(1, 3) {
+			txt = gal.Pick(r, []string{"wheel:x:10:root,app\n", "root:x:0:root\nbin:x:1:root,bin,daemon\nwheel:x:10:root\nnogroup:x:65533:\n", "nogroup:x:65533:\n", ""})
+		}
 		if r.Chance(1, 10) {
 			txt += gal.Pick(r, []string{"\n", "x:y\n", "g:x:z:\n"})
 		}
-		s = append(s, setupOp{Op: "write", Path: "etc/group", Arg: txt, Perm: 0o644})
+		s = append(s, setupOp{Op: "write", Path: "etc/group", Arg: reshapeLines(r, txt), Perm: 0o644})
 	}
 	extra := []setupOp{
 		{Op: "mkdirall", Path: "home", Perm: 0o755},
@@ -672,6 +695,36 @@ func randSetup(r *gal.Rand) []setupOp {
 		}
 	}
 	return s
+}
+
+// reshapeLines: the same lines in another line-ending shape (about half of the
+// time): last line unterminated, CRLF, blanks around lines, a final lone CR.
+func reshapeLines(r *gal.Rand, txt string) string {
+	if txt == "" || !r.Chance(1, 2) {
+		return txt
+	}
+	lines := strings.Split(strings.TrimSuffix(txt, "\n"), "\n")
+	sep, last := "\n", "\n"
+	switch r.Intn(6) {
+	case 0, 1: // last line unterminated
+		last = ""
+	case 2: // CRLF, terminated or not
+		sep = "\r\n"
+		last = gal.Pick(r, []string{"\r\n", ""})
+	case 3: // blanks around every line, last line unterminated or not
+		for i := range lines {
+			if lines[i] != "" {
+				lines[i] = gal.Pick(r, []string{" ", "\t", ""}) + lines[i] + gal.Pick(r, []string{" ", "\t", ""})
+			}
+		}
+		last = gal.Pick(r, []string{"\n", ""})
+	case 4: // a lone CR ends the file
+		last = "\r"
+	case 5: // only the last line, unterminated
+		lines = lines[len(lines)-1:]
+		last = ""
+	}
+	return strings.Join(lines, sep) + last
 }
 
 func accRandom(w *gal.Writer, r *gal.Rand, n int) {
